@@ -738,6 +738,21 @@ func (m *moAnalysis) effectsIn(rg *moRegion, fn *ssa.Function, blocks map[*ssa.B
 				_ = ia
 				continue
 			}
+			// lazy initialisation: a fresh empty container stored under `if <the same place> == nil`
+			// happens once, whatever the order
+			if _, fresh := x.Val.(*ssa.MakeMap); fresh {
+				lazy := false
+				for _, f := range factsAt(x.Block()) {
+					if v, nonNil, ok := nilCheck(f.Cond); ok && nonNil != f.Truth {
+						if u, ok := v.(*ssa.UnOp); ok && u.Op == token.MUL && (u.X == x.Addr || describe(u.X, 0) == describe(x.Addr, 0)) {
+							lazy = true
+						}
+					}
+				}
+				if lazy {
+					continue
+				}
+			}
 			m.sinks = append(m.sinks, moSink{rg, x.Pos(), fmt.Sprintf("store of an iteration-dependent value into %s, which outlives the iteration (last writer wins)", describe(x.Addr, 0)), append(append([]string{}, path...), m.p.Pos(x.Pos())+": store "+describe(x.Addr, 0))})
 		case *ssa.MapUpdate:
 			// commutative under distinct keys
